@@ -268,8 +268,12 @@ func ToDate(ctx *expr.Context, input system.Collection, args ...expr.Expression)
 	case system.Date:
 		return system.Collection{value}, nil
 	case system.DateTime:
-		dt := value.String()
-		result := system.MustParseDate(dt[:10])
+		// the date part of the rendering: up to the 'T' (partial date-times are shorter than 10 characters)
+		dt, _, _ := strings.Cut(value.String(), "T")
+		result, err := system.ParseDate(dt)
+		if err != nil {
+			return system.Collection{}, nil
+		}
 		return system.Collection{result}, nil
 	case system.String:
 		result, err := system.ParseDate(string(value))
@@ -479,8 +483,14 @@ func ToQuantity(ctx *expr.Context, input system.Collection, args ...expr.Express
 			return system.Collection{result}, nil
 		}
 		res := strings.SplitN(string(value), " ", 2)
-		unit := strings.Trim(res[1], "'")
-		result := system.MustParseQuantity(res[0], unit)
+		unit := DefaultQuantityUnit
+		if len(res) == 2 {
+			unit = strings.Trim(res[1], "'")
+		}
+		result, err := system.ParseQuantity(res[0], unit)
+		if err != nil {
+			return system.Collection{}, nil
+		}
 		return system.Collection{result}, nil
 	case system.Boolean:
 		if value {
